@@ -50,11 +50,13 @@ def generate(rng, tier):
         op = {"op": "record", "num_blocks": rng.choice([1, 2, 2, 3, 4, 5, 6]), "digitize": rng.random() < 0.7,
               "template": rng.random() < 0.2}
         if rng.random() < 0.25:
-            k = rng.choice(["enospc", "eio", "open", "source"])
+            k = rng.choice(["enospc", "eio", "open", "source", "interrupt"])
             if k in ("enospc", "eio"):
                 op["fault"] = {"kind": k, "at": rng.randint(1, 40), "torn": rng.random() < 0.3}
             elif k == "open":
                 op["fault"] = {"kind": "open", "at": rng.randint(1, 3), "errno": rng.choice(["eacces", "emfile"])}
+            elif k == "interrupt":
+                op["fault"] = {"kind": "interrupt", "at": rng.randint(1, 400)}
             else:
                 op["fault"] = {"kind": "source", "at": rng.randint(1, 6)}
         ops.append(op)
